@@ -34,12 +34,12 @@ def Resolves : Hist → Hist → Prop
   | (op, ok) :: h, (op', b) :: c => op' = op ∧ (ok = true → b = true) ∧ Resolves h c
   | _, _ => False
 
-/-- one epoch of a process: from the state `p0` an Open left, calls — each with at most one failing I/O action — issued
-    one after the other; `h` records each call and whether it returned nil -/
+/-- one epoch of a process: from the state `p0` an Open left, calls — each under any fault plan — issued one after the
+    other; `h` records each call and whether it returned nil -/
 inductive Epoch (p0 : Proc) : Hist → Proc → Prop
   | start : Epoch p0 [] p0
-  | call (h : Hist) (p : Proc) (op : Op) (k : Option Nat) (wf : WriteFail) :
-      Epoch p0 h p → OkV (view p) op → Epoch p0 (h ++ [(op, (runOp p op k wf).2)]) (runOp p op k wf).1
+  | call (h : Hist) (p : Proc) (op : Op) (pl : Plan) :
+      Epoch p0 h p → OkV (view p) op → Epoch p0 (h ++ [(op, (runOp p op pl).2)]) (runOp p op pl).1
 
 /-! ### executable invariant of a faulted process between calls -/
 
